@@ -16,6 +16,7 @@ TEMPLATES = [
     "d = {'k': a}\nd['k'] += b\ndel d['k']\nt(1, d)",
 ]
 SWALLOW = ["h(v => t(1, v) + one)\nt(2)", "h(v => [t(1), t(2)])\nt(3) or t(4)"]
+CROSS_FAIL = [("f = x => x + a\nnosuchname", "f(a)"), ("f = x => x + a\na + a + a + a + a + a + a + a", "[a, a] | map(f)")]
 CROSS = [("f = x => x + a", "f(a)"), ("g = (x, y) => x if y else a\nf = x => g(x, a)", "l = [a, a]\nl | map(f)")]
 
 
@@ -60,6 +61,10 @@ def plan(ctx):
         obs.append(Obligation(f"O4.reentrant.t{i}", "xh", "c01", "api_reentrant", param={"text": text}, timeout=T * 2,
                               bounds="outer budget N and inner budget unbounded; host list <= 2",
                               desc=f"eval({text!r}) where host `re` calls eval() on the same parser and names: the outer call's own node evaluations obey ITS budget"))
+    for i, (d, u) in enumerate(CROSS_FAIL):
+        obs.append(Obligation(f"O6.cross_eval_failed_define.t{i}", "xh", "c01", "cross_eval", param={"define": d, "use": u, "define_fails": True}, timeout=T * 2,
+                              bounds="N1>=4, N2>=1 unbounded; 0..3 intervening evals",
+                              desc=f"eval({d!r}) defines a lambda and then FAILS (undefined name / its own ops limit); a later eval({u!r}) is still charged to its own budget"))
     for i, (d, u) in enumerate(CROSS):
         obs.append(Obligation(f"O6.cross_eval.t{i}", "xh", "c01", "cross_eval", param={"define": d, "use": u}, timeout=T * 2,
                               bounds="N1>=4, N2>=1 unbounded; 0..3 intervening evals",
